@@ -2139,8 +2139,11 @@ func releasePendingReadIndexMessages(r *raft) {
 }
 
 func sendMsgReadIndexResponse(r *raft, m *pb.Message) {
-	// only one voting member (the leader) in the cluster
-	if r.trk.IsSingleton() {
+	// only one voting member (the leader) in the cluster. A leader that was
+	// removed from the voters (and has not stepped down) must not take this
+	// shortcut: the single remaining voter is another node, which needs to
+	// confirm this node's leadership through the regular heartbeat round.
+	if _, isVoter := r.trk.Voters[0][r.id]; isVoter && r.trk.IsSingleton() {
 		if resp := r.responseToReadIndexReq(m, r.raftLog.committed); resp.GetTo() != None {
 			r.send(resp)
 		}
